@@ -112,6 +112,13 @@ func runC12Suite(c *Ctx) {
 					runs++
 				}
 			}
+			// the same without any ordering between the closing goroutine and the call: Close lands before, at the start of,
+			// inside or after the call
+			for _, us := range []int{0, 1, 20, 200, 2000, 20000} {
+				if _, err := runScenario(sp, fault{Kind: "foreign-close-free", K: us}, rt); err == nil {
+					runs++
+				}
+			}
 		}
 	case "ping":
 		for i := 0; i < n; i++ {
@@ -227,7 +234,7 @@ func shortFunc(s string) string {
 
 func runC12(c *Ctx) {
 	R := c.R
-	R.Rule = "the scenario suites of C03/C04/C09/C10/C11 executed by a race-detector build (go build -race -tags verif) of this harness: selects with all telemetry packets; inserts and streamed inserts while the server keeps sending progress / profile events / logs; every fault kind of C04 and cancellation at the gates of C10; Close and IsClosed from a foreign goroutine at every gate; Ping with a foreign observer; goroutines sharing a pool while the health check runs with short lifetimes — each with OpenTelemetry instrumentation on and off. Every detector report with a frame inside the library is a violation (deduplicated by the pair of accessing functions). non-trivial = every run; distinct by suite."
+	R.Rule = "the scenario suites of C03/C04/C09/C10/C11 executed by a race-detector build (go build -race -tags verif) of this harness: selects with all telemetry packets; inserts and streamed inserts while the server keeps sending progress / profile events / logs; every fault kind of C04 and cancellation at the gates of C10; Close and IsClosed from a foreign goroutine at every gate and, unsynchronised, at several delays after the start of the call; Ping with a foreign observer; goroutines sharing a pool while the health check runs with short lifetimes — each with OpenTelemetry instrumentation on and off. Every detector report with a frame inside the library is a violation (deduplicated by the pair of accessing functions). non-trivial = every run; distinct by suite."
 	priv := os.Getenv("VERIF_PRIV")
 	bin := filepath.Join(priv, "harness_race")
 	if _, err := os.Stat(bin); err != nil {
